@@ -175,8 +175,18 @@ pub fn mamba_to_python(
     let asts: Vec<AST> = asts.into_iter().map(Result::unwrap).collect();
     trace!("Parsed {} files", asts.len());
 
-    let ctx = Context::try_from(asts.as_ref())
-        .map_err(|errs| errs.iter().map(|e| format!("{e}")).collect::<Vec<String>>())?;
+    // An error found while building the context belongs to the file if there is only one.
+    let ctx = Context::try_from(asts.as_ref()).map_err(|errs| {
+        errs.iter()
+            .map(|err| match source.as_slice() {
+                [(src, path)] => {
+                    let err = err.clone().with_source(&Some(src.clone()), path);
+                    format!("{err}")
+                }
+                _ => format!("{err}"),
+            })
+            .collect::<Vec<String>>()
+    })?;
     let (typed_ast, type_errs): (Vec<_>, Vec<_>) = asts
         .iter()
         .zip(&source)
